@@ -243,6 +243,29 @@ class Conserve(object):
                     raise AnalysisError("unrecognised return at line {}".format(s.lineno))
             self.exits.append(st)
             return []
+        if isinstance(s, (ast.Delete, ast.AugAssign, ast.Assert, ast.Global, ast.Nonlocal, ast.Import, ast.ImportFrom)):
+            # statements that neither write a buffer / the output list nor create a join alias are transparent
+            written = set()
+            if isinstance(s, ast.Delete):
+                written = {n.id for t in s.targets for n in ast.walk(t) if isinstance(n, ast.Name)}
+            elif isinstance(s, ast.AugAssign):
+                written = {n.id for n in ast.walk(s.target) if isinstance(n, ast.Name)}
+            calls_on_buffers = any(
+                isinstance(n, ast.Call) and isinstance(n.func, ast.Attribute) and isinstance(n.func.value, ast.Name) and (n.func.value.id in self.buffers or n.func.value.id == self.out)
+                for n in ast.walk(s)
+            )
+            if written & (self.buffers | {self.out}) or calls_on_buffers:
+                raise AnalysisError("unrecognised {} touching a buffer / the output list at line {}".format(type(s).__name__, s.lineno))
+            for nm in written:
+                st.alias.pop(nm, None)
+            return [st]
+        if isinstance(s, ast.Raise):
+            return []
+        if isinstance(s, ast.With):
+            for it in s.items:
+                if any(isinstance(n, ast.Name) and (n.id in self.buffers or n.id == self.out) for n in ast.walk(it.context_expr)):
+                    raise AnalysisError("a with-statement manages a buffer at line {}".format(s.lineno))
+            return self.run_block(s.body, [st])
         raise AnalysisError("unrecognised statement kind {} at line {}".format(type(s).__name__, s.lineno))
 
     def loop(self, s, st):
